@@ -934,13 +934,16 @@ fn same(d: &Option<Diff>, want: &(String, String)) -> bool {
     d.as_ref().map(|d| d.kind == want.0 && d.what == want.1).unwrap_or(false)
 }
 
+/// features present in a history, in signature order: the ones that can make TurDB copy WAL frames back into the
+/// table files (drop without close(), checkpoints) come first so that a known-finding prefix can name them
 fn all_features_of(h: &Hist, base: &RunOut) -> Vec<&'static str> {
-    let mut features: Vec<&'static str> = FEATURES.iter().copied().filter(|f| has_feature(h, f)).collect();
-    if base.outs.iter().any(|o| o.status.starts_with("error:")) {
-        features.push("failed_statement");
-    }
+    let mut features: Vec<&'static str> = vec![];
     if !h.explicit_close {
         features.push("close_by_drop");
+    }
+    features.extend(FEATURES.iter().copied().filter(|f| has_feature(h, f)));
+    if base.outs.iter().any(|o| o.status.starts_with("error:")) {
+        features.push("failed_statement");
     }
     features
 }
@@ -1917,6 +1920,15 @@ pub fn run(a: &Args) -> i32 {
             }
         }
         for x in v["violations"].as_array().cloned().unwrap_or_default() {
+            // debugging aid: C42_DUMP=<dir> keeps the first detail of every signature (the replay dir is capped)
+            if let Ok(dir) = std::env::var("C42_DUMP") {
+                let sig = x[1].as_str().unwrap_or("");
+                let f = format!("{}/{:016x}.json", dir, fnv(sig.as_bytes()));
+                if !x[2]["minimal_history"].is_null() && !Path::new(&f).exists() {
+                    let _ = std::fs::create_dir_all(&dir);
+                    let _ = std::fs::write(&f, serde_json::to_string_pretty(&json!({"sig": sig, "detail": x[2]})).unwrap_or_default());
+                }
+            }
             ctx.violation(x[0].as_str().unwrap_or(""), x[1].as_str().unwrap_or(""), x[2].clone());
         }
         if !v["extra"]["run"].is_null() {
